@@ -37,8 +37,13 @@ def compare(exp, obs, check_first, strict_empty_sizes=False):
     bad = []
     if obs is None:
         return [("missing", None, None)]
+    if obs.get("st") == "abort":
+        a = obs.get("abort", {})
+        return [("abort:%s:%s" % (a.get("kind"), a.get("line")), "ok", a)]
     if obs.get("st") != "ok":
-        return [("status", "ok", obs.get("st") + ":" + str(obs.get("why")))]
+        return [("status", "ok", str(obs.get("st")) + ":" + str(obs.get("why")))]
+    if "obs_abort" in obs:
+        return [("abort_in_observation", "ok", obs["obs_abort"])]
     if obs.get("D") != len(exp["shape"]):
         bad.append(("D", len(exp["shape"]), obs.get("D")))
         return bad
@@ -78,13 +83,17 @@ def compare(exp, obs, check_first, strict_empty_sizes=False):
         if s != 0 and obs["strides"][d] != s:
             bad.append(("strides", exp["sstr"], obs["strides"]))
             break
+    if obs.get("cells") is None:
+        bad.append(("abort_in_indexing", exp["cells"], obs.get("cells_abort")))
+        return bad
     if obs["cells"] != exp["cells"]:
         bad.append(("cells", exp["cells"], obs["cells"]))
     for k, v in obs.get("agree", {}).items():
         if v is not True:
-            bad.append(("access_path:" + k, obs["cells"], v))
-    if obs.get("front") != exp["cells"][0] or obs.get("back") != exp["cells"][-1]:
-        bad.append(("front_back", [exp["cells"][0], exp["cells"][-1]], [obs.get("front"), obs.get("back")]))
+            if isinstance(v, dict):
+                bad.append(("access_path_abort:" + k, obs["cells"], v))
+            else:
+                bad.append(("access_path:" + k, obs["cells"], v))
     if obs.get("esize") != exp["ne"]:
         bad.append(("elements_size", exp["ne"], obs.get("esize")))
     return bad
